@@ -3,6 +3,7 @@ package pair
 import (
 	"bytes"
 	"encoding/hex"
+	"errors"
 	"fmt"
 	"github.com/brutella/hc/crypto"
 	"github.com/brutella/hc/crypto/chacha20poly1305"
@@ -148,6 +149,11 @@ func (verify *VerifyServerController) handlePairVerifyFinish(in util.Container) 
 	verify.step = VerifyStepFinishResponse
 
 	data := in.GetBytes(TagEncryptedData)
+	if len(data) < 16 {
+		// Too short to contain the auth tag
+		return nil, errors.New("encrypted data is shorter than the auth tag")
+	}
+
 	message := data[:(len(data) - 16)]
 	var mac [16]byte
 	copy(mac[:], data[len(message):]) // 16 byte (MAC)
@@ -161,7 +167,7 @@ func (verify *VerifyServerController) handlePairVerifyFinish(in util.Container) 
 
 	if err != nil {
 		verify.reset()
-		log.Info.Panic(err)
+		log.Info.Println(err)
 		out.SetByte(TagErrCode, ErrCodeAuthenticationFailed.Byte()) // return error 2
 	} else {
 		in, err := util.NewTLV8ContainerFromReader(bytes.NewBuffer(decryptedBytes))
